@@ -123,6 +123,12 @@ def walk(root, where, vs, stats, seen, depth=0):
         return
     seen.add(id(root))
     stats["nodes"] += 1
+    if depth > 0 and getattr(root, "initial_modeling_obj_container", None) is not None and root.modeling_obj_container is None:
+        # an operand that was a value of the model and has been superseded: the explanation of a value the model
+        # holds now must be made of values it holds now (its leaves are "inputs of the model")
+        vs.append(("explanation-refers-to-superseded-value", f"{where}: operand '{root.label}' was an attribute of "
+                   f"{getattr(root.initial_modeling_obj_container, 'name', '?')} but is no longer held by the model"))
+        return
     L, R, op = root.left_parent, root.right_parent, root.operator
     if L is None and R is None:
         stats["leaves"] += 1
